@@ -23,6 +23,9 @@
  *                     tnew t T x* | tpush t x | tpushat t i x | tpop t | tpopat t i | tget t i | tset t i x | titems t | tritems t
  *                     | tlen t | tsort t | tmem t x | trem t x | tcat t x* | tresize t n | tcmp t t2 | thash t | tdrop t | tdel t
  *                     probe t v q* | preset t   (method-cache probe types, see below)     ring n seed churn   (Boxes owning each other)
+ *   (O lines, modelled: Cello/Config.lean namespace Keep) keep programs — holders 0..MAXH-1 that are the sole path to managed objects:
+ *                     hnew h kind | hput h k id pay | hget h k | hread h | hrem h k | hrel h k | hshrink h n | hreserve h n
+ *                     | hchurn m | hdrop h | hdel h        (see "keep programs" below)
  */
 #include "common.h"
 #include <inttypes.h>
@@ -285,6 +288,196 @@ static long long view_k = 0;
 static var fn_gt(var x) { return c_int(x) > view_k ? x : NULL; }
 static var fn_add(var x) { return new(Int, $I(c_int(x) + view_k)); }     /* result is garbage for the collector; leaks under NGC (bounded) */
 static var fn_len_gt(var x) { return (long long)strlen(c_str(x)) > view_k ? x : NULL; }
+
+/* ------------------------------------------------------------------------------------------------ keep programs
+ * Holders (own slots 0..MAXH-1, an array in main's frame) are containers that are the SOLE path to collector-managed
+ * `Tracked` objects: the only pointer to a Tracked object is inside the container (an embedded Ref value, a pointer field of
+ * an embedded key, a Tuple item, a link of a chain, a thread-local entry).  Nothing else the collector scans refers to them:
+ * the ledger below is indexed by the object's serial number and holds no pointer.
+ *   kinds:  a Array of Ref | l List of Ref | t Table Int->Ref | k Table KCell->Int (the KEY holds the pointer) | r Tree Int->Ref
+ *           | q Tree KCell->Int | u heap Tuple of the objects themselves | c chain  head Ref -> link -> Tracked -> link -> ...
+ *           (links are heap Refs for even serials, heap Boxes for odd ones; the next link hangs off the LAST word of the
+ *           Tracked struct: a plain struct traced by the conservative scan) | s thread-local storage set(current(Thread), key, obj)
+ *   hnew h kind | hput h k id pay   (new Tracked(id, pay) stored under key k / at index k <= len)
+ *   hget h k | hread h              (every element read back: key, serial, payload; type and payload are checked)
+ *   hrem h k  (removed and deleted)  | hrel h k  (removed only: garbage for the collector, a leak under CELLO_NGC)
+ *   hshrink h n (resize: elements >= n released; maps and thread-local storage only n = 0) | hreserve h n (Table rehash)
+ *   hchurn m  (m short-lived Ints: allocation pressure)   | hdrop h (handle forgotten) | hdel h (everything deleted)
+ * Ledger: the destructor of Tracked counts.  An object that is still stored in a live holder must never have been
+ * finalised; no object is finalised twice; an explicit del finalises at once.  Audited after every operation, so a
+ * prematurely collected object is an oracle failure (and is never dereferenced afterwards). */
+#define MAXH 8
+#define MAXE 128
+#define MAXID 4096
+struct Tracked { int64_t id; int64_t pay; var link; };
+static struct { unsigned char made, fin, expect, deleted, reported; long long pay; } led[MAXID];
+static int led_top = 0;            /* serials below this were used */
+static int k_poisoned = 0;         /* an object was lost: nothing is dereferenced any more */
+static void Tracked_New(var self, var args) {
+  struct Tracked* t = self; t->id = c_int(get(args, $I(0))); t->pay = c_int(get(args, $I(1))); t->link = NULL;
+}
+static void Tracked_Del(var self) {
+  struct Tracked* t = self;
+  if (t->id >= 0 && t->id < MAXID && led[t->id].fin < 200) led[t->id].fin++;
+  t->pay = -1; t->link = NULL;
+}
+static var Tracked = Cello(Tracked, Instance(New, Tracked_New, Tracked_Del));
+/* key type whose second word is the only pointer to a Tracked object; hashed and compared by its number */
+struct KCell { int64_t k; var obj; };
+static void KCell_Assign(var self, var obj) { struct KCell* a = self; struct KCell* b = cast(obj, type_of(self)); a->k = b->k; a->obj = b->obj; }
+static int KCell_Cmp(var self, var obj) { struct KCell* a = self; struct KCell* b = cast(obj, type_of(self)); return a->k < b->k ? -1 : a->k > b->k ? 1 : 0; }
+static uint64_t KCell_Hash(var self) { struct KCell* a = self; return (uint64_t)a->k; }
+static var KCell = Cello(KCell, Instance(Assign, KCell_Assign), Instance(Cmp, KCell_Cmp), Instance(Hash, KCell_Hash));
+
+typedef struct { int kind; int n; long long key[MAXE]; int id[MAXE]; } KH;
+static KH kh[MAXH];
+static var* HH;                    /* the holders: an array in main's frame */
+static var kp[MAXE], kl[MAXE];     /* scratch for pointers (static storage: not scanned by the collector); cleared after use */
+static long long kk_[MAXE];
+static size_t n_keep = 0, n_keep_reads = 0, n_high = 0;
+
+static int k_isseq(int kind) { return kind == 'a' || kind == 'l' || kind == 'u' || kind == 'c'; }
+static int k_ismap(int kind) { return kind == 't' || kind == 'k' || kind == 'r' || kind == 'q' || kind == 's'; }
+static int k_pos(KH* h, long long k) {
+  if (k_isseq(h->kind)) return (k >= 0 && k < h->n) ? (int)k : -1;
+  for (int i = 0; i < h->n; i++) if (h->key[i] == k) return i;
+  return -1;
+}
+static void k_tls_key(char* out, size_t n, int h, long long k) { snprintf(out, n, "keep%d_%lld", h, k); }
+static __attribute__((noinline)) void k_scrub(void) { volatile char pad[6144]; for (size_t i = 0; i < sizeof pad; i++) pad[i] = 0; }
+
+/* the audit: run before and after every keep operation, after every collection and at the end */
+static void k_audit(const char* when) {
+  char a[96], b[64];
+  for (int id = 0; id < led_top; id++) {
+    if (!led[id].made || led[id].reported) continue;
+    const char* what = NULL;
+    if (led[id].fin > 1) what = "finalised-twice";
+    else if (led[id].expect && led[id].fin) what = "finalised-while-stored-in-a-live-container";
+    else if (led[id].deleted && led[id].fin != 1) what = "deleted-but-not-finalised";
+    if (!what) continue;
+    led[id].reported = 1; k_poisoned = 1;
+    snprintf(a, sizeof a, "serial=%d finalised=%d at=%s", id, (int)led[id].fin, when); snprintf(b, sizeof b, "%s", led[id].expect ? "alive" : "finalised-once");
+    XF(what, a, b);
+  }
+}
+
+/* the object behind position `pos` / key `k` of holder h, through the public API */
+static __attribute__((noinline)) var k_fetch(int h, int pos, long long k) {
+  var c = HH[h]; var p = NULL; char key[48];
+  switch (kh[h].kind) {
+    case 'a': case 'l': p = deref(get(c, $I(pos))); break;
+    case 'u': p = get(c, $I(pos)); break;
+    case 't': case 'r': p = deref(get(c, $I(k))); break;
+    case 'k': case 'q': { foreach (kk in c) { struct KCell* q = kk; if (q->k == k) { p = q->obj; break; } } } break;
+    case 's': k_tls_key(key, sizeof key, h, k); p = get(current(Thread), $S(key)); break;
+    case 'c': { var L = deref(c); for (int i = 0; i < pos; i++) { struct Tracked* t = deref(L); L = t->link; } p = deref(L); } break;
+  }
+  return p;
+}
+/* "serial:payload" of a stored object, checking type, serial and payload against the ledger */
+static void k_show(char* out, size_t n, var p, int id) {
+  if (led[id].fin) { snprintf(out, n, "%d:dead", id); return; }
+  if (p == NULL) { snprintf(out, n, "%d:null", id); XF("keep-element-null", out, ""); return; }
+  struct Tracked* t = p; char w[64];
+  if (type_of(p) != Tracked) { snprintf(out, n, "%d:not-a-Tracked", id); XF("keep-element-type", out, "Tracked"); return; }
+  snprintf(out, n, "%lld:%lld", (long long)t->id, (long long)t->pay);
+  snprintf(w, sizeof w, "%d:%lld", id, led[id].pay);
+  if (strcmp(out, w)) XF("keep-element-content", out, w);
+}
+static __attribute__((noinline)) var k_new_tracked(int id, long long pay) {
+  var o = new(Tracked, $I(id), $I(pay));
+  led[id].made = 1; led[id].expect = 1; led[id].pay = pay; if (id >= led_top) led_top = id + 1;
+  return o;
+}
+static __attribute__((noinline)) void k_put(int h, int pos, long long k, int id, long long pay) {
+  var c = HH[h]; char key[48];
+  var o = k_new_tracked(id, pay);
+  switch (kh[h].kind) {
+    case 'a': case 'l': if (pos == kh[h].n) push(c, $R(o)); else push_at(c, $R(o), $I(pos)); break;
+    case 'u': if (pos == kh[h].n) push(c, o); else push_at(c, o, $I(pos)); break;
+    case 't': case 'r': set(c, $I(k), $R(o)); break;
+    case 'k': case 'q': set(c, $(KCell, k, o), $I(pay)); break;
+    case 's': k_tls_key(key, sizeof key, h, k); set(current(Thread), $S(key), o); break;
+    case 'c': {
+      var L = (id % 2) ? (var)new(Box, o) : (var)new(Ref, o);
+      if (pos == 0) { ((struct Tracked*)o)->link = deref(c); ref(c, L); }
+      else {
+        var P = deref(c); struct Tracked* t = deref(P);
+        for (int i = 1; i < pos; i++) { P = t->link; t = deref(P); }
+        ((struct Tracked*)o)->link = t->link; t->link = L;
+      }
+    } break;
+  }
+}
+/* take the element at pos / key k out of the container; returns the object (and, for a chain, its link in *link) */
+static __attribute__((noinline)) var k_take(int h, int pos, long long k, var* link) {
+  var c = HH[h]; var p = k_fetch(h, pos, k); char key[48]; *link = NULL;
+  switch (kh[h].kind) {
+    case 'a': case 'l': case 'u': pop_at(c, $I(pos)); break;
+    case 't': case 'r': rem(c, $I(k)); break;
+    case 'k': case 'q': rem(c, $(KCell, k, NULL)); break;
+    case 's': k_tls_key(key, sizeof key, h, k); rem(current(Thread), $S(key)); break;
+    case 'c': {
+      struct Tracked* me = p;
+      if (pos == 0) { *link = deref(c); ref(c, me->link); }
+      else {
+        var P = deref(c); struct Tracked* t = deref(P);
+        for (int i = 1; i < pos; i++) { P = t->link; t = deref(P); }
+        *link = t->link; t->link = me->link;
+      }
+      me->link = NULL;
+    } break;
+  }
+  return p;
+}
+static __attribute__((noinline)) void k_delete_obj(int id, var p, var link) {
+  led[id].expect = 0; led[id].deleted = 1;
+  if (link) { if (type_of(link) == Box) { del(link); return; } del(link); }     /* a Box deletes what it owns */
+  del(p);
+}
+/* everything the holder contains, in container order, into kp[] (objects), kl[] (chain links), kk_[] (keys); returns the count */
+static __attribute__((noinline)) int k_collect(int h) {
+  var c = HH[h]; int n = 0; char key[48];
+  memset(kp, 0, sizeof kp); memset(kl, 0, sizeof kl);
+  switch (kh[h].kind) {
+    case 'a': case 'l': { foreach (x in c) { if (n < MAXE) { kp[n] = deref(x); kk_[n] = n; } n++; } } break;
+    case 'u': { foreach (x in c) { if (n < MAXE) { kp[n] = x; kk_[n] = n; } n++; } } break;
+    case 't': case 'r': { foreach (x in c) { if (n < MAXE) { kk_[n] = c_int(x); kp[n] = deref(get(c, x)); } n++; } } break;
+    case 'k': case 'q': { foreach (x in c) { struct KCell* q = x; if (n < MAXE) { kk_[n] = q->k; kp[n] = q->obj; } n++; } } break;
+    case 's':
+      for (int i = 0; i < kh[h].n; i++) {
+        k_tls_key(key, sizeof key, h, kh[h].key[i]);
+        if (!mem(current(Thread), $S(key))) continue;
+        kk_[n] = kh[h].key[i]; kp[n] = get(current(Thread), $S(key)); n++;
+      }
+      break;
+    case 'c': {
+      var L = deref(c);
+      while (L && n < MAXE) { struct Tracked* t = deref(L); kl[n] = L; kp[n] = t; kk_[n] = n; n++; L = t->link; }
+    } break;
+  }
+  return n;
+}
+static void k_forget(int h, int deleted) {
+  for (int i = 0; i < kh[h].n; i++) { led[kh[h].id[i]].expect = 0; if (deleted) led[kh[h].id[i]].deleted = 1; }
+  memset(&kh[h], 0, sizeof kh[h]);
+}
+/* delete the holder and everything it contains (every build: nothing is freed for the program under CELLO_NGC) */
+static __attribute__((noinline)) void k_delete_all(int h) {
+  int kind = kh[h].kind; char key[48];
+  int n = k_collect(h); if (n > MAXE) n = MAXE;
+  if (kind == 's') {
+    for (int i = 0; i < kh[h].n; i++) { k_tls_key(key, sizeof key, h, kh[h].key[i]); rem(current(Thread), $S(key)); }
+  } else del(HH[h]);
+  for (int i = 0; i < n; i++) {
+    if (kind == 'c' && kl[i]) { if (type_of(kl[i]) == Box) { del(kl[i]); continue; } del(kl[i]); }
+    del(kp[i]);
+  }
+  memset(kp, 0, sizeof kp); memset(kl, 0, sizeof kl);
+  HH[h] = NULL;
+}
+static int k_cmp_idx(const void* a, const void* b) { long long x = kk_[*(const int*)a], y = kk_[*(const int*)b]; return x < y ? -1 : x > y; }
 
 static const char* FMTS_INT[] = { "%li", "[%5li|%-5li]", "%lx", "%lX", "%lo", "%+li", "%03li", "%c" };
 static const char* FMTS_STR[] = { "%s", "[%8s|%-8s]", "%.2s", "<%s>%%" };
@@ -918,12 +1111,165 @@ static void run_op(int nt, char** t) {
     if (exc) { unexpected(exc); return; }
     fprintf(vout, "T ring %lld churn %lld\n", r, c); return;
   }
+  /* ---------------- keep programs: containers as the sole path to collector-managed objects (O lines: the model has them) */
+  if (op[0] == 'h' && (!strcmp(op, "hnew") || !strcmp(op, "hput") || !strcmp(op, "hget") || !strcmp(op, "hread") || !strcmp(op, "hrem")
+      || !strcmp(op, "hrel") || !strcmp(op, "hshrink") || !strcmp(op, "hreserve") || !strcmp(op, "hchurn") || !strcmp(op, "hdrop") || !strcmp(op, "hdel"))) {
+    int h = 0; long long k = 0, id = 0, pay = 0; KH* s = NULL;
+    if (!strcmp(op, "hchurn")) {
+      if (nt != 2 || !parse_int(t[1], &n)) BAD();
+      if (n < 0 || n > 400) OOC();
+      n_exec++; n_keep++;
+      long long c = 0;
+      V_TRY(exc, c = churn_round(n));
+      if (exc) { unexpected(exc); O("err %s", v_exc_name(exc)); return; }
+      k_scrub(); k_audit("hchurn");
+      O("churn %lld", c); return;
+    }
+    if (nt < 2 || !parse_slot(t[1], &h)) BAD();
+    if (!strcmp(op, "hnew")) {
+      if (nt != 3 || strlen(t[2]) != 1 || !strchr("altkrqucs", t[2][0])) BAD();
+    } else if (!strcmp(op, "hput")) {
+      if (nt != 5 || !parse_int(t[2], &k) || !parse_int(t[3], &id) || !parse_int(t[4], &pay)) BAD();
+    } else if (!strcmp(op, "hget") || !strcmp(op, "hrem") || !strcmp(op, "hrel") || !strcmp(op, "hshrink") || !strcmp(op, "hreserve")) {
+      if (nt != 3 || !parse_int(t[2], &k)) BAD();
+    } else if (nt != 2) BAD();
+    if (h >= MAXH) OOC();
+    s = &kh[h];
+    if (!strcmp(op, "hnew")) {
+      if (s->kind) OOC();
+      n_exec++; n_keep++; k_audit("before");
+      int kind = t[2][0];
+      V_TRY(exc, {
+        switch (kind) {
+          case 'a': HH[h] = new(Array, Ref); break;
+          case 'l': HH[h] = new(List, Ref); break;
+          case 't': HH[h] = new(Table, Int, Ref); break;
+          case 'k': HH[h] = new(Table, KCell, Int); break;
+          case 'r': HH[h] = new(Tree, Int, Ref); break;
+          case 'q': HH[h] = new(Tree, KCell, Int); break;
+          case 'u': HH[h] = new(Tuple); break;
+          case 'c': HH[h] = new(Ref); ref(HH[h], NULL); break;
+          case 's': HH[h] = NULL; break;
+        }
+      });
+      if (exc) { unexpected(exc); O("err %s", v_exc_name(exc)); return; }
+      memset(s, 0, sizeof *s); s->kind = kind;
+      k_audit(op); O("ok"); return;
+    }
+    if (!s->kind) OOC();
+    if (k_poisoned) { O("skipped-after-lost-object"); return; }
+    k_audit("before");
+    if (!strcmp(op, "hput")) {
+      if (id < 0 || id >= MAXID || led[id].made || pay < 0 || pay > 1000000000LL || s->n >= MAXE - 8) OOC();
+      if (k_isseq(s->kind)) { if (k < 0 || k > s->n) OOC(); }
+      else if (k < 0 || k > 1000000 || k_pos(s, k) >= 0) OOC();
+      n_exec++; n_keep++;
+      V_TRY(exc, k_put(h, (int)k, k, (int)id, pay));
+      if (exc) { unexpected(exc); O("err %s", v_exc_name(exc)); return; }
+      if (k_isseq(s->kind)) { memmove(s->id + k + 1, s->id + k, (s->n - k) * sizeof(int)); s->id[k] = (int)id; }
+      else { s->key[s->n] = k; s->id[s->n] = (int)id; }
+      s->n++;
+      k_scrub(); k_audit(op); O("ok"); return;
+    }
+    if (!strcmp(op, "hget") || !strcmp(op, "hrem") || !strcmp(op, "hrel")) {
+      int pos = k_pos(s, k);
+      if (pos < 0) OOC();
+      n_exec++; n_keep++;
+      int eid = s->id[pos];
+      if (op[1] == 'g') {
+        n_keep_reads++;
+        var p = NULL;
+        V_TRY(exc, p = k_fetch(h, pos, k));
+        if (exc) { unexpected(exc); O("err %s", v_exc_name(exc)); return; }
+        k_show(e1, sizeof e1, p, eid); p = NULL;
+        O("hget %s", e1); return;
+      }
+      var p = NULL; var link = NULL;
+      V_TRY(exc, { p = k_take(h, pos, k, &link); if (op[2] == 'e' && op[3] == 'm') k_delete_obj(eid, p, link); });
+      if (exc) { unexpected(exc); O("err %s", v_exc_name(exc)); return; }
+      led[eid].expect = 0; p = NULL; link = NULL;
+      memmove(s->id + pos, s->id + pos + 1, (s->n - pos - 1) * sizeof(int));
+      memmove(s->key + pos, s->key + pos + 1, (s->n - pos - 1) * sizeof(long long));
+      s->n--;
+      k_scrub(); k_audit(op); O("ok"); return;
+    }
+    if (!strcmp(op, "hshrink")) {
+      if (k < 0 || k > s->n) OOC();
+      if (k_ismap(s->kind) && k != 0) OOC();
+      n_exec++; n_keep++;
+      V_TRY(exc, {
+        if (s->kind == 's') { char key[48]; for (int i = 0; i < s->n; i++) { k_tls_key(key, sizeof key, h, s->key[i]); rem(current(Thread), $S(key)); } }
+        else if (s->kind == 'c') {
+          if (k == 0) ref(HH[h], NULL);
+          else { var L = deref(HH[h]); struct Tracked* q = deref(L); for (int i = 1; i < k; i++) { L = q->link; q = deref(L); } q->link = NULL; }
+        }
+        else if (s->kind == 'u') { if (k < s->n) resize(HH[h], (size_t)k); }       /* Tuple_Resize refuses n >= len */
+        else resize(HH[h], (size_t)k);
+      });
+      if (exc) { unexpected(exc); O("err %s", v_exc_name(exc)); return; }
+      for (int i = (int)k; i < s->n; i++) led[s->id[i]].expect = 0;
+      s->n = (int)k;
+      k_scrub(); k_audit(op); O("ok"); return;
+    }
+    if (!strcmp(op, "hreserve")) {
+      if ((s->kind != 't' && s->kind != 'k') || k < s->n || k < 1 || k > 400) OOC();
+      n_exec++; n_keep++;
+      V_TRY(exc, resize(HH[h], (size_t)k));
+      if (exc) { unexpected(exc); O("err %s", v_exc_name(exc)); return; }
+      k_audit(op); O("ok"); return;
+    }
+    if (!strcmp(op, "hread")) {
+      n_exec++; n_keep++; n_keep_reads++;
+      int cnt = 0; size_t ln = 0;
+      V_TRY(exc, { cnt = k_collect(h); if (s->kind != 's' && s->kind != 'c') ln = len(HH[h]); else ln = (size_t)cnt; });
+      if (exc) { unexpected(exc); O("err %s", v_exc_name(exc)); return; }
+      if (cnt != s->n || ln != (size_t)s->n) { snprintf(e1, sizeof e1, "%d/%zu", cnt, ln); snprintf(e2, sizeof e2, "%d", s->n); XF("keep-length", e1, e2); }
+      if (cnt > MAXE) cnt = MAXE;
+      int ord[MAXE]; for (int i = 0; i < cnt; i++) ord[i] = i;
+      if (k_ismap(s->kind)) qsort(ord, cnt, sizeof(int), k_cmp_idx);
+      /* the expected serials: container order for sequences, key order for maps */
+      int xo[MAXE]; for (int i = 0; i < s->n; i++) xo[i] = i;
+      if (k_ismap(s->kind)) { for (int i = 1; i < s->n; i++) { int x = xo[i], j = i; while (j > 0 && s->key[xo[j-1]] > s->key[x]) { xo[j] = xo[j-1]; j--; } xo[j] = x; } }
+      size_t l = 0; buf1[0] = 0; char e[96], e0_[64];
+      for (int i = 0; i < cnt; i++) {
+        int j = ord[i];
+        if (i >= s->n) { XF("keep-extra-element", "", ""); break; }
+        int eid = s->id[xo[i]];
+        long long ek = k_isseq(s->kind) ? i : s->key[xo[i]];
+        if (kk_[j] != ek) { snprintf(e1, sizeof e1, "%lld", kk_[j]); snprintf(e2, sizeof e2, "%lld", ek); XF("keep-key", e1, e2); }
+        k_show(e0_, sizeof e0_, kp[j], eid);
+        snprintf(e, sizeof e, "%s%lld:%s", i ? "," : "", kk_[j], e0_); app(buf1, &l, e);
+      }
+      memset(kp, 0, sizeof kp); memset(kl, 0, sizeof kl);
+      if (s->kind == 't' || s->kind == 'k') {
+        struct Table* tb = HH[h]; size_t high = 0;
+        for (size_t i = tb->nitems; i < tb->nslots; i++) if (Table_Key_Hash(tb, i) != 0) high++;
+        n_high += high;
+        O("hread n=%d [%s] slots=%zu high=%zu", cnt, buf1, tb->nslots, high);
+      } else O("hread n=%d [%s]", cnt, buf1);
+      k_scrub(); return;
+    }
+    if (!strcmp(op, "hdrop") || !strcmp(op, "hdel")) {
+      n_exec++; n_keep++;
+      if (op[2] == 'e') {
+        V_TRY(exc, k_delete_all(h));
+        if (exc) { unexpected(exc); O("err %s", v_exc_name(exc)); return; }
+        k_forget(h, 1);
+      } else {
+        if (s->kind == 's') { V_TRY(exc, { char key[48]; for (int i = 0; i < s->n; i++) { k_tls_key(key, sizeof key, h, s->key[i]); rem(current(Thread), $S(key)); } }); if (exc) { unexpected(exc); return; } }
+        HH[h] = NULL; k_forget(h, 0);
+      }
+      k_scrub(); k_audit(op); O("ok"); return;
+    }
+    BAD();
+  }
   if (!strcmp(op, "gc")) {
     if (nt != 1) BAD();
     n_exec++;
 #ifndef CELLO_NGC
     GC_Mark(current(GC)); GC_Sweep(current(GC));
 #endif
+    k_audit("gc");
     fprintf(vout, "T gc\n");
     /* every live handle must be intact after a collection */
     for (int s = 0; s < MAXSLOT; s++) if (LIVE(s)) check_obj(s, "gc");
@@ -938,6 +1284,7 @@ int main(int argc, char** argv) {
   if (argc < 2) { fprintf(stderr, "usage: h_cfg <opfile>\n"); return 2; }
   var slots[MAXSLOT]; memset(slots, 0, sizeof slots); S = slots;
   var tslots[MAXT]; memset(tslots, 0, sizeof tslots); TS = tslots;
+  var hslots[MAXH]; memset(hslots, 0, sizeof hslots); HH = hslots;
   size_t n; char** lines = v_read_lines(argv[1], &n);
   I("cfg=%s opt=%s header=%zu cache=%d", VCFG, VOPT, sizeof(struct Header), (int)CELLO_CACHE_NUM);
   for (size_t li = 0; li < n; li++) {
@@ -958,8 +1305,15 @@ int main(int argc, char** argv) {
     var exc; V_TRY(exc, { foreach (x in TS[s]) { del(x); } del(TS[s]); }); if (exc) unexpected(exc);
     TS[s] = NULL; sh_free(&tsh[s]);
   }
-  O("end live=%zu", live);
+  size_t hlive = 0;
+  k_audit("end");
+  for (int h = 0; h < MAXH; h++) if (kh[h].kind) {
+    hlive++;
+    if (!k_poisoned) { var exc; V_TRY(exc, k_delete_all(h)); if (exc) unexpected(exc); k_forget(h, 1); }
+  }
+  k_audit("teardown");
+  O("end live=%zu holders=%zu", live, hlive);
   fprintf(vout, "T end tuples=%zu\n", tlive);
-  I("executed=%zu out-of-contract=%zu bad=%zu oracle-failures=%zu", n_exec, n_ooc, n_bad, n_x);
+  I("executed=%zu out-of-contract=%zu bad=%zu oracle-failures=%zu keep-ops=%zu keep-reads=%zu high-slot-entries-read=%zu tracked=%d", n_exec, n_ooc, n_bad, n_x, n_keep, n_keep_reads, n_high, led_top);
   return 0;
 }
